@@ -510,7 +510,17 @@ func c10Reflect(c *Ctx) {
 		if nfn == 0 {
 			continue
 		}
+		// keyed by what is walked (the static type handed to reflect.ValueOf), not by the function
+		// the walk happens to live in
 		key := shortFn(fn) + " reflect-walk"
+		for _, ci := range callsTo(fn, "reflect.ValueOf") {
+			switch x := arg(ci, 0).(type) {
+			case *ssa.MakeInterface:
+				key = "reflect-walk of " + x.X.Type().String()
+			case *ssa.ChangeInterface:
+				key = "reflect-walk of " + x.X.Type().String()
+			}
+		}
 		if len(undominated) == 0 {
 			c.OK(rule, key, fn.Pos(), "all %d reflect partial calls are dominated by a Kind() test of the same value", nfn)
 		} else {
